@@ -52,6 +52,7 @@ class Generator:
         self.next_id = 0
         self.queue = []
         self.emitted = 0
+        self._force = None       # (n, conn) forced for the next recipe (fault aiming)
         self.cfg = self._draw_config()
 
     # ------------------------------------------------------------------ configuration (swarm)
@@ -90,10 +91,14 @@ class Generator:
         return self.next_id
 
     def _n(self):
+        if self._force:
+            return self._force[0]
         return self.rng.choice(self.cfg["ns"])
 
     def _conn(self, n, allow_invalid=True):
         r = self.rng
+        if self._force and n == self._force[0]:
+            return self._force[1]
         if allow_invalid and r.random() < self.cfg["p_invalid"]:
             return r.choice(INVALID_CONNS)
         if n in self.cfg["conns"]:
@@ -774,7 +779,21 @@ class Generator:
         """Arm a fault, issue a call that will meet it (a cold lookup), then re-ask."""
         r = self.rng
         fam = r.choice([f for f in self.cfg["families"] if f in CORE] or ["mub"])
-        steps = self.gen_call(ex, fam)
+        # aim at a table that is still cold (a fault while the cache is warm tests nothing)
+        kind_prefix = "mub" if fam == "mub" else "stabilizer"
+        cold = [(n, c) for n in self.cfg["ns"] for c in self.cfg["conns"][n]
+                if f"{kind_prefix}{n}-{c}.txt" not in ex.warm]
+        if not cold and r.random() < 0.7:
+            cold = [(n, c) for n in (2, 3, 4) for c in VALID[n] if f"{kind_prefix}{n}-{c}.txt" not in ex.warm]
+        if cold and r.random() < 0.85:
+            self._force = r.choice(cold)
+        try:
+            saved = self.cfg["p_invalid"]
+            self.cfg["p_invalid"] = saved * 0.3
+            steps = self.gen_call(ex, fam)
+        finally:
+            self.cfg["p_invalid"] = saved
+            self._force = None
         if not steps or steps[-1]["kind"] != "call":
             return steps
         call = steps[-1]
@@ -784,8 +803,10 @@ class Generator:
         else:
             scope = "circuit_lookup.py" if r.random() < 0.5 else "any"
             exc = "KeyboardInterrupt" if r.random() < 0.7 else "MemoryError"
+            x = r.random()
+            frac = r.random() if x < 0.6 else (0.999999 if x < 0.8 else (r.uniform(0.9, 1.0) if x < 0.95 else 0.0))
             arm = {"id": self._id(), "kind": "arm_intr", "scope": scope, "ordinal": None,
-                   "frac": r.random(), "exc": exc}
+                   "frac": frac, "exc": exc}
         out = steps[:-1] + [arm, call]
         if r.random() < 0.9:
             again = dict(call)
@@ -793,8 +814,40 @@ class Generator:
             out.append(again)
         return out
 
+    def gen_triple(self, ex):
+        """produce; disturb the result; re-ask - the shortest history in which an aliasing channel shows."""
+        steps = self.gen_call(ex)
+        if not steps or steps[-1]["kind"] != "call":
+            return steps
+        call = steps[-1]
+
+        def after(ex2, call=call):
+            sid = call["id"]
+            m = ex2.meta.get(sid)
+            if m is None or not m["subs"]:
+                return []
+            r = self.rng
+            cands = [(path, kind, hint) for path, kind, al, hint in m["subs"] if kind != "tuple"]
+            if not cands:
+                return []
+            out = []
+            for _ in range(r.choice([1, 1, 2])):
+                path, kind, hint = r.choice(cands)
+                mut, params = self._draw_mutation(kind, hint, m, path)
+                if mut is not None:
+                    out.append({"id": self._id(), "kind": "mutate", "target": {"ref": sid, "path": path},
+                                "mut": mut, "params": params})
+            again = dict(call)
+            again["id"] = self._id()
+            out.append(again)
+            return out
+        return steps + [after]
+
     # ------------------------------------------------------------------ main loop
     def next(self, ex):
+        while self.queue and callable(self.queue[0]):
+            f = self.queue.pop(0)
+            self.queue[0:0] = f(ex)
         if self.emitted >= self.cfg["length"] and not self.queue:
             return None
         if not self.queue:
@@ -802,7 +855,9 @@ class Generator:
             x = r.random()
             c = self.cfg
             steps = None
-            if x < c["p_mutate"]:
+            if x < c["p_mutate"] * 0.35:
+                steps = self.gen_triple(ex)
+            elif x < c["p_mutate"]:
                 steps = self.gen_mutation(ex)
             elif x < c["p_mutate"] + c["p_drop"]:
                 if ex.meta:
@@ -814,6 +869,9 @@ class Generator:
             if not steps:
                 steps = self.gen_call(ex)
             self.queue.extend(steps)
+        while self.queue and callable(self.queue[0]):
+            f = self.queue.pop(0)
+            self.queue[0:0] = f(ex)
         if not self.queue:
             return None
         self.emitted += 1
